@@ -172,6 +172,9 @@ func semCorpus() []*Ast {
 		cat(&Ast{Kind: AAtomic, Kids: []*Ast{cat(rep(lit('a'), 1, -1, true), rep(lit('b'), 0, 1, false))}}, lit('c')), // (?>a+?b?)c
 		cat(grp(cat(rep(lit('a'), 0, -1, false), rep(lit('c'), 0, 1, false))), lit('b'), &Ast{Kind: ABackref, Ref: 1}), // (a*c?)b\1
 		cat(rep(&Ast{Kind: ANonCap, Kids: []*Ast{cat(lit('a'), rep(lit('b'), 0, -1, false))}}, 2, 2, false)),       // (?:ab*){2}
+		cat(rep(&Ast{Kind: AAtomic, Kids: []*Ast{rep(lit('a'), 1, -1, false)}}, 0, 1, false), lit('a'), lit('b')),                          // (?>a+)?ab
+		rep(&Ast{Kind: AAtomic, Kids: []*Ast{rep(lit('a'), 1, 2, false)}}, 2, 2, false),                                                   // (?>a{1,2}){2}
+		cat(rep(&Ast{Kind: AClass, Items: []ClassItem{{Lo: 'a', Hi: 'a'}, {Lo: 'c', Hi: 'c'}}}, 0, -1, false), rep(&Ast{Kind: AClass, Items: []ClassItem{{Lo: 'a', Hi: 'b'}}}, 1, 2, false), lit('a')), // [ac]*[ab]{1,2}a
 		alt(grp(cat(lit('c'), lit('d'), lit('e'))), grp(cat(lit('c'), lit('x'))), grp(cat(lit('c'), lit('d'), lit('e'), lit('f')))), // (cde)|(cx)|(cdef)
 	}
 }
